@@ -217,6 +217,20 @@ def gen_cases(rng, tier):
         c6b = cov66(rng)
         lines.append('twist.to2d ' + toks(lin + ang + flat(c6b)))
         lines.append('pt.to2d ' + toks(pos + ori + flat(c6) + lin + ang + flat(c6b)))
+        if rng.chance(0.3):
+            # degenerate covariances right after ordinary ones (the harness converts every second time IN PLACE into an output that
+            # still holds the previous result): exactly zero, zero except one entry, zero selected block
+            z6 = [[0.0] * 6 for _ in range(6)]
+            one = [list(r) for r in z6]
+            k = rng.choice([2, 3, 4])
+            one[k][k] = 1.0                  # trace > 0, selected (0,1,5) block exactly zero
+            for cz in (z6, one):
+                lines.append('twist.to2d ' + toks(rand_vec(rng) + rand_vec(rng) + flat(cz)))
+                lines.append('twist.to2d ' + toks(rand_vec(rng) + rand_vec(rng) + flat(cz)))
+                lines.append('pose.to2d ' + toks(rand_vec(rng) + rand_angles(rng, False) + flat(cz)))
+                lines.append('pose.to2d ' + toks(rand_vec(rng) + rand_angles(rng, False) + flat(cz)))
+                lines.append('pt.to2d ' + toks(pos + ori + flat(cz) + lin + ang + flat(cz)))
+                lines.append('pt.to2d ' + toks(pos + ori + flat(cz) + lin + ang + flat(cz)))
         cases.append({'name': 'select-%d' % i, 'lines': lines, 'meta': meta})
     # --- pose transformation: single, identity, composition
     n = 400 if quick else 20000
